@@ -170,3 +170,13 @@ Example C14_example_quoted :
   load_nq (gen_nq (tden ex_tdb)) = tden ex_tdb /\ load_nt (gen_nt (tden ex_tdb)) = default_part (tden ex_tdb) /\
   ttl_same (load_ttl (gen_ttl (tden ex_tdb))) (default_part (tden ex_tdb)) = true.
 Proof. repeat split; vm_compute; reflexivity. Qed.
+
+(* a quoted triple whose literal component has white-space characters other than space/TAB/LF/CR INSIDE its words
+   (U+3000 ideographic space, U+00A0 no-break space, U+2028): part of the safe class, round-trips *)
+Definition ex_q3 : qterm := QQt (QIri ex_s) (QIri ex_p) (QLit [[20840; 12288; 35282]; [112; 160; 102; 8232; 120]]).
+Definition ex_tdb3 : list tquad := [ (Quoted ex_q3, ex_p, Bare [111], None); (Bare ex_s, ex_p, Quoted ex_q3, Some ex_s) ].
+Example C14_example_quoted_unicode_space :
+  wf_tdb ex_tdb3 = true /\ known_ttl_q ex_tdb3 = false /\
+  load_nq (gen_nq (tden ex_tdb3)) = tden ex_tdb3 /\ load_nt (gen_nt (tden ex_tdb3)) = default_part (tden ex_tdb3) /\
+  ttl_same (load_ttl (gen_ttl (tden ex_tdb3))) (default_part (tden ex_tdb3)) = true.
+Proof. repeat split; vm_compute; reflexivity. Qed.
